@@ -23,11 +23,14 @@ func (k Keeper) ClaimVesting(ctx sdk.Context, msg *types.MsgClaimVesting) (*type
 	newClaims := sdk.Coins{}
 	var updatedVestingTokens []*types.VestingTokens
 	for _, vesting := range commitments.VestingTokens {
-		vestedSoFar := vesting.VestedSoFar(ctx)                         // tokens unlocked
-		newClaim := vestedSoFar.Sub(vesting.ClaimedAmount)              // tokens to mint or transfer
-		newClaims = newClaims.Add(sdk.NewCoin(vesting.Denom, newClaim)) // adding coin to mint or transfer
-		vesting.ClaimedAmount = vestedSoFar                             // updating claimed amount
-		if !vesting.ClaimedAmount.Equal(vesting.TotalAmount) {          // if ClaimedAmount == TotalAmount, it would mean all tokens has been claimed and no need to keep the vesting tokens
+		vestedSoFar := vesting.VestedSoFar(ctx)            // tokens unlocked
+		newClaim := vestedSoFar.Sub(vesting.ClaimedAmount) // tokens to mint or transfer
+		// after a partial cancel the reduced schedule can be behind what was already claimed
+		if newClaim.IsPositive() {
+			newClaims = newClaims.Add(sdk.NewCoin(vesting.Denom, newClaim)) // adding coin to mint or transfer
+			vesting.ClaimedAmount = vestedSoFar                             // updating claimed amount
+		}
+		if !vesting.ClaimedAmount.Equal(vesting.TotalAmount) { // if ClaimedAmount == TotalAmount, it would mean all tokens has been claimed and no need to keep the vesting tokens
 			updatedVestingTokens = append(updatedVestingTokens, vesting)
 		}
 	}
